@@ -142,7 +142,7 @@ var caseSeq int64
 
 func newHome() string {
 	n := atomic.AddInt64(&caseSeq, 1)
-	d := filepath.Join(verifkit.WorkDir(), fmt.Sprintf("p%d", n))
+	d := filepath.Join(verifkit.WorkDir(), fmt.Sprintf("p%d-%d", os.Getpid(), n)) // fuzz workers are separate processes sharing one work directory
 	os.RemoveAll(d)
 	os.MkdirAll(d, 0755)
 	return d
